@@ -1135,3 +1135,41 @@ package sio
 // C16: functions that run user handlers synchronously (callers must not hold a lock across them).
 //@ func (*eventHandler).call
 //@   callback
+
+// ---------------------------------------------------------------------------------------------
+// C04. A broadcast issued through a socket never reaches that socket: every operator a socket hands out is the
+// namespace-wide operator with the socket's own room (its id, which onConnect joins: C12.onconnect.ownroom) excluded.
+//@ func (*serverSocket).newBroadcastOperator
+//@   opt safety off
+//@   ghost base *adapter.BroadcastOperator = nil
+//@   ghost ex int = 0
+//@   ghost res *adapter.BroadcastOperator = nil
+//@   callsite NewBroadcastOperator skip
+//@     requires arg1 == s.adapter [C04.sender.own.adapter]
+//@     updateafter base = result
+//@   callsite (*BroadcastOperator).Except skip
+//@     requires recv == base && len(arg0) == 1 && arg0[0] == s.id [C04.sender.excluded]
+//@     update ex = ex + 1
+//@     updateafter res = result
+//@   ensures ex == 1 && result == res [C04.sender.operator]
+
+//@ func (*serverSocket).To
+//@   opt safety off
+//@   ghost base *adapter.BroadcastOperator = nil
+//@   callsite (*serverSocket).newBroadcastOperator skip
+//@     updateafter base = result
+//@   callsite (*BroadcastOperator).To skip
+//@     requires recv == base && arg0 == room [C04.sender.to]
+//@ func (*serverSocket).Except
+//@   opt safety off
+//@   ghost base *adapter.BroadcastOperator = nil
+//@   callsite (*serverSocket).newBroadcastOperator skip
+//@     updateafter base = result
+//@   callsite (*BroadcastOperator).Except skip
+//@     requires recv == base && arg0 == room [C04.sender.except]
+//@ func (*serverSocket).Broadcast
+//@   opt safety off
+//@   ghost base *adapter.BroadcastOperator = nil
+//@   callsite (*serverSocket).newBroadcastOperator skip
+//@     updateafter base = result
+//@   ensures result == base [C04.sender.broadcast]
